@@ -19,7 +19,13 @@
    one aggregate" guard), un-windowed extend INCLUDING the SQL-level extend merge, concat_rows (without id column, or with an
    id column -- also over an un-windowed extend, where the generator's `.extend({id: label})` merges the label into that
    ExtendNode; NOT over an order_rows without limit, which that builder call skips: the rows then come in another order,
-   transcribed but not proved), for dialects that do not merge at SQL level windowed extend, and
+   transcribed but not proved),
+   windowed extend (stage v): for dialects that do not merge at SQL level, always; for dialects that DO merge (the default),
+   when extend_to_near_sql has no merge to attempt around it -- its source's step is not an extend step (`mergeable_src s =
+   false`: a table, select_rows, project, rename / map_columns, order_rows, natural_join, concat_rows, or select / drop_columns
+   over such) and neither an extend nor an id-column concat_rows reads it directly or through select / drop_columns
+   (`win_top`); Proofs/SqlGenP17.v gen_not_mg shows that the generator then writes a fresh step (all node kinds, all dialects),
+   and
    natural_join WRITTEN AS A JOIN (stage iv, `join_covered d fl jt`): INNER and LEFT for every dialect; RIGHT when the dialect
    does not rewrite it (d_rewrite_right d = false: DBModel / PostgreSQLModel); FULL when the dialect does not rewrite it
    (d_rewrite_full d = false: DBModel / PostgreSQLModel, and SQLiteModel linked with SQLite >= 3.39) -- anywhere in the
@@ -35,7 +41,11 @@
        COALESCE(right, left), i.e. join_terms false, and C16's right/left mirror law) and FULL as the three-way construction
        (d_rewrite_full: SQLite < 3.39);
      - the generator before 6d4c3d4 (d_join_carry d = false), which is the finding SQLGEN-join-unused-side-bare-table-ambiguous;
-     - windowed extend under SQL-level merging.
+     - a windowed extend that extend_to_near_sql actually tries to merge at SQL level (directly, or through select / drop_columns,
+       over an extend, or under an extend / id-column concat_rows): for these SQLGEN_window_merge_partial gives the SELECT-level
+       equation (merged SELECT = outer SELECT over inner SELECT, window items on either side), which is the content of the
+       window_vars contention test; carrying it through the induction needs the invariant MergeInv (Proofs/SqlGenP12.v) and
+       merged_delivers (Proofs/SqlGenP13.v) restated for non-aggregate instead of scalar terms -- not done.
 
    WHICH PROPERTY FILE EACH THEOREM STRENGTHENS
      SQLGEN_correct_partial, SQLGEN_correct_toplevel_partial   Props/C01.v (SQLite SQL = reference semantics fl_sqlite: the behavioural
@@ -44,6 +54,9 @@
                                       Props/C10.v's use (the pruning lemma is what makes `using` sound)
      SQLGEN_join_partial              Props/C16.v (the join contract, for the SQL path: the generated JOIN with its COALESCE / pass terms
                                       and pruned operands computes sem_join = JoinSpec), Props/C01.v, Props/C02.v (RIGHT / FULL native)
+     SQLGEN_window_merge_partial      Props/C01.v, Props/C04.v, Props/C09.v (the three seeded changes C01-m3 C04-m3 C09-m3 all break the
+                                      hypothesis `deps_describe`: partition / order columns among the declared dependencies)
+     SQLGEN_window_vars_without_order_refuted   regression witness for the same (model variant of C01-m3)
      SQLGEN_result_columns_partial    Props/C08.v (declared columns for the SQL path)
      SQLGEN_row_count_partial         Props/C09.v (one row per group / one row without grouping survives pruning in SQL), Props/C08.v
      SQLGEN_view_names_distinct       Props/C15.v (generated names; all node kinds)
@@ -54,7 +67,7 @@
 From Coq Require Import List Bool Arith ZArith QArith String Permutation.
 Import ListNotations.
 From DA Require Import Base.PyRT Base.Val Model.Sem Model.ColumnsUsed Model.SqlGen Model.SqlSem
-  Proofs.SqlGenP1 Proofs.SqlGenP2 Proofs.SqlGenP4 Proofs.SqlGenP6 Proofs.SqlGenP7 Proofs.SqlGenP8 Proofs.SqlGenP9 Proofs.SqlGenP15 Proofs.SqlGenP16 Proofs.SqlGenEx.
+  Proofs.SqlGenP1 Proofs.SqlGenP2 Proofs.SqlGenP4 Proofs.SqlGenP6 Proofs.SqlGenP7 Proofs.SqlGenP8 Proofs.SqlGenP9 Proofs.SqlGenP11 Proofs.SqlGenP15 Proofs.SqlGenP16 Proofs.SqlGenP17 Proofs.SqlGenEx Proofs.SqlGenEx2.
 Local Open Scope string_scope.
 Local Open Scope list_scope.
 
@@ -141,6 +154,28 @@ Proof.
 Qed.
 Print Assumptions SQLGEN_join_partial.
 
+(* Stage (v) under SQL-level merging, at the level of one merge (PARTIAL: see the header for what the induction covers).
+   ts / ds : terms and declared dependencies of the step below (its SELECT over X, asked for the columns su', yields Y);
+   tms / deps : terms and declared dependencies of the extend being generated; neither side aggregates, either side may carry
+   window items  f(..) OVER (PARTITION BY .. ORDER BY ..).  If the declared dependencies cover what each term reads
+   (deps_describe: for a window item its argument, PARTITION and ORDER columns -- extend_to_near_sql's window_vars) and the
+   contention test finds nothing, then the merged SELECT over X equals the outer SELECT over the inner one, for every
+   requested K whose terms read columns of su'. *)
+Theorem SQLGEN_window_merge_partial :
+  forall fl (ts tms : terms) (ds deps : depmap) su' K X,
+  (forall kt, In kt ts -> is_agg_term (snd kt) = false) -> (forall kt, In kt tms -> is_agg_term (snd kt) = false) ->
+  NoDup (map fst ds) -> NoDup (map fst deps) -> NoDup (map fst tms) -> NoDup (map fst ts) ->
+  incl (map fst ts) (map fst ds) -> map fst tms = map fst deps -> deps_describe tms deps ->
+  contention (non_trivial_terms deps tms) (needs deps (non_trivial_terms deps tms))
+             (non_trivial_terms ds ts) (needs ds (non_trivial_terms ds ts)) = [] ->
+  su' <> [] -> incl su' (map fst ts) ->
+  K <> [] -> incl K (map fst tms) -> (forall k, In k K -> incl (item_cols (k, term_of tms k)) su') ->
+  forall Y, sql_select fl true (Some ts) (Some su') SfxNone X = Some Y ->
+  sql_select fl true (Some (merged_terms (non_trivial_terms deps tms) tms deps ts)) (Some K) SfxNone X
+  = sql_select fl true (Some tms) (Some K) SfxNone Y.
+Proof. exact merge_compose_win. Qed.
+Print Assumptions SQLGEN_window_merge_partial.
+
 (* ALL node kinds, ALL dialects, merging on or off: every generated view (step names extend_N, project_N, ..., and the two
    aliases join_source_left_N / join_source_right_N of a join) carries a number taken from the counter between its start value
    and its end value, and the names of one generated tree are pairwise distinct.  (The invariant C15's SQL finding is about,
@@ -170,6 +205,26 @@ Theorem SQLGEN_pre_6f11e66_refuted :
   | _ => False end.
 Proof. exact f6f11e66_regression. Qed.
 Print Assumptions SQLGEN_pre_6f11e66_refuted.
+
+(* window_vars (seeded changes C01-m3 / C04-m3 / C09-m3 as a model variant): t.extend({b: b * -1}).extend({r: a.cumsum()},
+   order_by=[b]).  With the ORDER columns missing from the declared dependencies the contention test sees nothing, the two
+   steps are merged and ORDER BY b reads the stored b: r = 4, 3, 9 where the reference has 9, 3, 8; with window_vars as the
+   code has them there is contention on b, no merge, and the generated query returns the reference table. *)
+Theorem SQLGEN_window_vars_without_order_refuted :
+  builder_ok rx_p3 = true /\
+  rx_col_r (sem_gen fl_sqlite rx_p3 rx_env) = Some [VNum 9; VNum 3; VNum 8] /\
+  match to_near d_sqlite rx_p3_inner (Some ["a"; "b"]) 0 with
+  | Ok (sub, _) =>
+      match try_sql_merge sub rx_tms3 (rx_deps3 (w_part rx_w3)) with
+      | Some (Ok m) => rx_col_r (nsem fl_sqlite m rx_env) = Some [VNum 4; VNum 3; VNum 9]
+      | _ => False
+      end /\
+      try_sql_merge sub rx_tms3 (rx_deps3 (set_union (w_part rx_w3) (w_order rx_w3))) = None
+  | _ => False
+  end /\
+  match to_near d_sqlite rx_p3 None 0 with Ok (q, _) => nsem fl_sqlite q rx_env = sem_gen fl_sqlite rx_p3 rx_env | _ => False end.
+Proof. exact window_vars_regression. Qed.
+Print Assumptions SQLGEN_window_vars_without_order_refuted.
 
 (* ------------------------------------------------------------------ the hypotheses are satisfiable *)
 Definition ex_t := OTable "t" ["a"; "b"; "c"].
@@ -210,3 +265,8 @@ Example SQLGEN_join_guard_satisfiable :
                  option_map (fun t => List.length (rows t)) (nsem fl_postgres q ex_env) = Some 3%nat
   | _ => False end.
 Proof. split; [vm_compute; reflexivity|]. split; [vm_compute; reflexivity|]. vm_compute. split; reflexivity. Qed.
+(* a windowed extend over a table, for the DEFAULT dialect (merging on) *)
+Example SQLGEN_window_guard_merging_satisfiable :
+  builder_ok ex_w = true /\ stage1 true (join_covered d_sqlite fl_sqlite) ex_w = true /\
+  match to_near d_sqlite ex_w None 0 with Ok (q, _) => nsem fl_sqlite q ex_env = sem_gen fl_sqlite ex_w ex_env | _ => False end.
+Proof. split; [vm_compute; reflexivity|]. split; vm_compute; reflexivity. Qed.
